@@ -101,7 +101,7 @@ Section EngineBridge.
   Definition root_of (ts : VisionsTypeset T D St) : res T :=
     match _root_node ts with
     | Some r => Ok r
-    | None => g_first_source (T_eqb X) (relation_graph ts)
+    | None => find_root_node X (relation_graph ts)
     end.
   Definition with_root (ts : VisionsTypeset T D St) (r : T) : VisionsTypeset T D St :=
     match _root_node ts with Some _ => ts | None => set__root_node ts (Some r) end.
@@ -110,7 +110,7 @@ Section EngineBridge.
     VT_root_node X ts = (r <- root_of ts ;; ret (r, with_root ts r)).
   Proof.
     unfold VT_root_node, root_of, with_root. destruct ts as [[r|] rg bg tys]; cbn; [reflexivity|].
-    destruct (g_first_source (T_eqb X) rg); reflexivity.
+    destruct (find_root_node X rg); reflexivity.
   Qed.
 
   Theorem VT_detect_eq fuel ts d :
